@@ -257,6 +257,10 @@ func runC09(p *Program, r *Report) {
 		seen[c] = true
 		r.Check(ok, "C09.R1", c, p.Pos(a.in.Pos()), "accessed with nameSpace.mu held", "field "+a.field+" (written during concurrent first executions) is accessed without nameSpace.mu held")
 	}
+	// ---- R3 analysed templates are never analysed again (premise of the argued-safe node edits) -----------
+	checkMemoDiscipline(p, r, "C09.R3")
+	// ---- R4 the lock is never taken twice -------------------------------------------------------------------
+	checkNoReentrantLock(p, r, "C09.R4")
 	// ---- R2 foreign objects ---------------------------------------------------------------
 	type fstore struct {
 		fn    *ssa.Function
@@ -335,9 +339,9 @@ func runC09(p *Program, r *Report) {
 	r.Analysed["text_template_delegations(locked?)"] = fmt.Sprint(delegationLocked)
 	// argued-safe edits of parse nodes, by function
 	arguedSafe := map[string]string{
-		"commit|TemplateNode.Name":        "renames calls inside trees that no executor has reached yet (templates are executed only after their own analysis committed)",
-		"commit|TextNode.Text":            "as above",
-		"ensurePipelineContains|PipeNode.Cmds": "as above (called from commit)",
+		"commit|TemplateNode.Name":                "renames calls inside trees that no executor has reached yet (templates are executed only after their own analysis committed)",
+		"commit|TextNode.Text":                    "as above",
+		"ensurePipelineContains|PipeNode.Cmds":    "as above (called from commit)",
 		"ensurePipelineContains|CommandNode.Args": "as above (called from commit)",
 	}
 	for _, fs := range fstores {
@@ -359,5 +363,131 @@ func runC09(p *Program, r *Report) {
 		default:
 			r.Viol("C09.R2", c, pos, "a field of a published text/template object is written during a concurrent first execution", "")
 		}
+	}
+}
+
+// checkNoReentrantLock: nameSpace.mu is not reentrant; a function that takes it
+// (or reaches one that does) must never be called at a point where it is
+// already held — the call would never return (C08: hang; C09: deadlock).
+func checkNoReentrantLock(p *Program, r *Report, rule string) {
+	tsp := p.SSAPkg("template")
+	pv := NewProv(p)
+	pv.NoInline = true
+	var fns []*ssa.Function
+	for _, f := range p.SrcFuncs() {
+		if f.Pkg == tsp || (f.Parent() != nil && f.Parent().Pkg == tsp) {
+			fns = append(fns, f)
+		}
+	}
+	locks := map[*ssa.Function]bool{}
+	for _, f := range fns {
+		for _, l := range callsIn(f, "(*sync.Mutex).Lock") {
+			e := pv.Of(l.Common().Args[0])
+			if e.Op == "fieldaddr" && e.Name == "mu" {
+				locks[f] = true
+			}
+		}
+	}
+	// mayLock: reaches a locking function through static calls
+	mayLock := map[*ssa.Function]bool{}
+	for f := range locks {
+		mayLock[f] = true
+	}
+	for changed := true; changed; {
+		changed = false
+		for _, f := range fns {
+			if mayLock[f] {
+				continue
+			}
+			for _, b := range f.Blocks {
+				for _, in := range b.Instrs {
+					if c, ok := in.(*ssa.Call); ok {
+						if g := staticCallee(c.Common()); g != nil && mayLock[g] {
+							mayLock[f] = true
+							changed = true
+						}
+					}
+				}
+			}
+		}
+	}
+	// held: entered only from lock-held points (greatest fixpoint, roots = exported API)
+	callSites := map[*ssa.Function][]*ssa.Call{}
+	for _, f := range fns {
+		for _, b := range f.Blocks {
+			for _, in := range b.Instrs {
+				if c, ok := in.(*ssa.Call); ok {
+					if g := staticCallee(c.Common()); g != nil {
+						callSites[g] = append(callSites[g], c)
+					}
+				}
+			}
+		}
+	}
+	held := map[*ssa.Function]bool{}
+	for _, f := range fns {
+		exported := f.Object() != nil && f.Object().Exported() && f.Parent() == nil
+		if !exported && (len(callSites[f]) > 0 || f.Parent() != nil) && !(f.Synthetic != "") && !strings.HasPrefix(f.Name(), "init") {
+			held[f] = true
+		}
+	}
+	for changed := true; changed; {
+		changed = false
+		for _, f := range fns {
+			if !held[f] {
+				continue
+			}
+			ok := true
+			if f.Parent() != nil {
+				ok = held[f.Parent()] || func() bool {
+					// created after the lock was taken in the parent
+					for _, b := range f.Parent().Blocks {
+						for _, in := range b.Instrs {
+							if mc, isMC := in.(*ssa.MakeClosure); isMC && mc.Fn == ssa.Value(f) {
+								return lockHeldAt(pv, f.Parent(), mc)
+							}
+						}
+					}
+					return false
+				}()
+			} else {
+				for _, c := range callSites[f] {
+					caller := c.Parent()
+					if !(held[caller] || lockHeldAt(pv, caller, c)) {
+						ok = false
+					}
+				}
+			}
+			if !ok {
+				delete(held, f)
+				changed = true
+			}
+		}
+	}
+	n := 0
+	for _, f := range fns {
+		for _, b := range f.Blocks {
+			for _, in := range b.Instrs {
+				c, ok := in.(*ssa.Call)
+				if !ok {
+					continue
+				}
+				g := staticCallee(c.Common())
+				if g == nil || !mayLock[g] {
+					continue
+				}
+				n++
+				isHeld := held[f] || lockHeldAt(pv, f, c)
+				if isHeld && !locks[g] {
+					// the call that actually blocks is reported at the innermost site
+					continue
+				}
+				cn := fmt.Sprintf("%s#calls-locking:%s", strings.TrimPrefix(fnName(f), pkgTemplate+"."), g.Name())
+				r.Check(!isHeld, rule, cn, p.Pos(c.Pos()), "called without nameSpace.mu held", "a function that takes nameSpace.mu (or reaches one) is called while the lock is already held: sync.Mutex is not reentrant, the call never returns and every later call on the set blocks")
+			}
+		}
+	}
+	if n == 0 {
+		r.Undec(rule, "template#locking-calls", "", "no call to a locking function found")
 	}
 }
